@@ -37,9 +37,19 @@ Print Assumptions C01_prec_table_is_spec.
    expression that ENDS in a slice must not be followed by whitespace; for the
    corrected parseSlice the theorem holds without it (…_fixed below).
 
-   _partial: function calls inside parentheses "(f a b)" and array / map literals
-   as operands are in the model and in the correspondence run, but not in the
-   grammar this theorem quantifies over. *)
+   Round 8: the grammar now contains calls in parentheses "(f a1 ... an)",
+   array literals "[e1 ... en]" and map literals "{k1:v1 ... kn:vn}" with
+   distinct keys (Lay_call, Lay_arr, Lay_map): arguments / elements / values are
+   derivations themselves (arbitrarily nested), separated by whitespace and
+   rendered tight, with optional whitespace just inside the brackets and after
+   the colon of a pair.
+
+   _partial — still outside the grammar this theorem quantifies over (all in
+   the model and in the correspondence run): array / map literals spread over
+   several lines (newlines / comments between elements), calls of functions
+   without parameters written as a bare name, keywords used as map keys / after
+   ".", whitespace between a map key and its colon; and, not an expression of
+   the grammar at all, the call statement "f a b" without parentheses. *)
 Theorem C01_prec_pratt_parses_layered_grammar_partial :
   forall E l st rest0 fuel,
   no_tyerr E -> Lay 0 l -> atoms_ok E l -> layout_ok l = true ->
@@ -149,6 +159,23 @@ Theorem C01_prec_decl_stmt_parses :
               rest st' = [mk T_NL] /\ is_at_eol st' = true /\ errs st' = [].
 Proof. exact decl_stmt_parses. Qed.
 Print Assumptions C01_prec_decl_stmt_parses.
+
+(* end to end through the statement wrapper, the call statement (no parentheses):
+   f a1 ... an NL  with arguments that are derivations of the grammar (nested
+   arbitrarily, calls / array / map literals included), separated by whitespace
+   and rendered tight, is parsed to the call of f on the arguments' trees, all
+   tokens consumed, the cursor at the end of line, no error *)
+Theorem C01_prec_call_stmt_parses :
+  forall E f args wz fuel,
+  no_tyerr E -> func_of E f = Some false -> arity_wrong E f (List.length args) = false ->
+  (forall a, In a args -> Lay 0 a) -> args_ok E (atoms_ok E) wz args ->
+  forallb (fun a => layout_ok a && tight_ok a) args = true ->
+  let toks := ident_tok f :: wsl (seq_flag args wz) ++ render_seq render args wz ++ [mk T_NL] in
+  2 * List.length toks <= fuel ->
+  exists st', parse_stmt_expr E fuel 0 toks = Some (Some (TCall f (map tree_of args)), st') /\
+              rest st' = [mk T_NL] /\ is_at_eol st' = true /\ errs st' = [].
+Proof. exact call_stmt_parses. Qed.
+Print Assumptions C01_prec_call_stmt_parses.
 
 (* ---------- the parseSlice defect (fixed in /repo by commit 16971a1; e_fix_slice = false is the code before it) ---------- *)
 Definition env_code : env :=
@@ -301,3 +328,98 @@ Example C01_prec_ex_postfix_parse :
                     (TDot (TVar (s_ "b")) (s_ "k")) /\
   tree_of ex_post2 = TSlice (TAssert (TVar (s_ "c")) (Some (TyArr TyNum))) None (Some (TNum (s_ "1"))).
 Proof. vm_compute. repeat split; reflexivity. Qed.
+
+(* ---------- round 8: calls in parentheses and array literals inside derivations ---------- *)
+Definition env_calls : env :=
+  {| e_funcs := [(s_ "f", false); (s_ "g", false); (s_ "print", false)]; e_vars := [s_ "a"; s_ "b"];
+     e_arity := [(s_ "f", Some 2); (s_ "g", Some 1)]; e_tyerr := fun _ _ _ => false; e_fix_slice := true |}.
+
+(*  (f a[0] -b)*[1 (g 2)][0]   with w = false (a tight layout), and
+    ( f a[0] -b ) * [ 1 (g 2 ) ][ 0 ]   with w = true (a free layout) *)
+Definition ex_args : list lexp :=
+  [LIndex (LAtom (AVar (s_ "a")) false) false (LAtom (ANum (s_ "0")) false) false; LUn UNeg (LAtom (AVar (s_ "b")) false)].
+Definition ex_arr (w : bool) : lexp :=
+  LArr w [LAtom (ANum (s_ "1")) false; LCall false (s_ "g") [LAtom (ANum (s_ "2")) false] w false] w false.
+Definition ex_cl (w : bool) : lexp :=
+  LBin BMul (LCall w (s_ "f") ex_args w w) w (LIndex (ex_arr w) w (LAtom (ANum (s_ "0")) w) false).
+
+Example C01_prec_ex_call_lay :
+  forall w, Lay 0 (ex_cl w) /\ atoms_ok env_calls (ex_cl w) /\ layout_ok (ex_cl w) = true.
+Proof.
+  intro w. split; [|split].
+  - apply (Lay_0_of 6). apply (Lay_bin BMul).
+    + apply (Lay_le 6 8); [repeat constructor|]. apply Lay_call. intros a [<-|[<-|[]]].
+      * apply (Lay_0_of 8). apply Lay_index; [apply Lay_atom|apply Lay_atom_any; repeat constructor].
+      * apply (Lay_0_of 7). apply Lay_un. apply Lay_atom_any; repeat constructor.
+    + apply (Lay_up 7). apply Lay_index.
+      * apply Lay_arr. intros a [<-|[<-|[]]].
+        -- apply Lay_atom_any; repeat constructor.
+        -- apply (Lay_0_of 8). apply Lay_call. intros a [<-|[]]. apply Lay_atom_any; repeat constructor.
+      * apply Lay_atom_any; repeat constructor.
+  - destruct w; vm_compute; repeat split; intros; try discriminate; auto.
+  - destruct w; reflexivity.
+Qed.
+
+Example C01_prec_ex_call_parse :
+  tight_ok (ex_cl false) = true /\ tight_ok (ex_cl true) = false /\
+  (* free: x := ( f a[0] -b ) * [ 1 (g 2 ) ][ 0 ] *)
+  (let toks := tk T_IDENT "x" :: mk T_WS :: mk T_DECLARE :: mk T_WS :: render (ex_cl true) ++ [mk T_NL] in
+   option_map fst (parse_stmt_expr env_calls (2 * List.length toks + 10) 2 toks) = Some (Some (tree_of (ex_cl true)))) /\
+  (* tight: print (f a[0] -b)*[1 (g 2)][0] (f a[0] -b)*[1 (g 2)][0] — two arguments *)
+  (let toks := tk T_IDENT "print" :: mk T_WS :: render (ex_cl false) ++ mk T_WS :: render (ex_cl false) ++ [mk T_NL] in
+   option_map fst (parse_stmt_expr env_calls (2 * List.length toks + 10) 0 toks) =
+     Some (Some (TCall (s_ "print") [tree_of (ex_cl false); tree_of (ex_cl false)]))) /\
+  tree_of (ex_cl true) = tree_of (ex_cl false) /\
+  tree_of (ex_cl false) =
+    TBin T_ASTERISK
+      (TGroup (TCall (s_ "f") [TIndex (TVar (s_ "a")) (TNum (s_ "0")); TUn T_MINUS (TVar (s_ "b"))]))
+      (TIndex (TArr [TNum (s_ "1"); TGroup (TCall (s_ "g") [TNum (s_ "2")])]) (TNum (s_ "0"))).
+Proof. vm_compute. repeat split; reflexivity. Qed.
+
+(*  {a:1 b:[2 (g 3)]}.b[0]   (w = false, tight)   /   { a: 1 b: [ 2 (g 3 ) ] }.b[ 0 ]   (w = true) *)
+Definition ex_map (w : bool) : lexp :=
+  LIndex
+    (LDot (LMap w [(s_ "a", w, LAtom (ANum (s_ "1")) false);
+                   (s_ "b", w, LArr w [LAtom (ANum (s_ "2")) false; LCall false (s_ "g") [LAtom (ANum (s_ "3")) false] w false] w false)]
+                w false)
+          (s_ "b") false)
+    w (LAtom (ANum (s_ "0")) w) false.
+
+Example C01_prec_ex_map_lay :
+  forall w, Lay 0 (ex_map w) /\ atoms_ok env_calls (ex_map w) /\ layout_ok (ex_map w) = true /\ tight_ok (ex_map w) = true.
+Proof.
+  intro w. split; [|split; [|split]].
+  - apply (Lay_0_of 8). apply Lay_index; [|apply Lay_atom_any; repeat constructor].
+    apply Lay_dot. apply Lay_map. intros p [<-|[<-|[]]]; cbn [snd].
+    + apply Lay_atom_any; repeat constructor.
+    + apply (Lay_0_of 8). apply Lay_arr. intros a [<-|[<-|[]]].
+      * apply Lay_atom_any; repeat constructor.
+      * apply (Lay_0_of 8). apply Lay_call. intros a [<-|[]]. apply Lay_atom_any; repeat constructor.
+  - destruct w; vm_compute; repeat split; intros; try discriminate; auto.
+  - destruct w; reflexivity.
+  - destruct w; reflexivity.
+Qed.
+
+Example C01_prec_ex_map_parse :
+  (let toks := tk T_IDENT "x" :: mk T_WS :: mk T_DECLARE :: mk T_WS :: render (ex_map true) ++ [mk T_NL] in
+   option_map fst (parse_stmt_expr env_calls (2 * List.length toks + 10) 2 toks) = Some (Some (tree_of (ex_map true)))) /\
+  (let toks := tk T_IDENT "print" :: mk T_WS :: render (ex_map false) ++ mk T_WS :: render (ex_map true) ++ [mk T_NL] in
+   option_map fst (parse_stmt_expr env_calls (2 * List.length toks + 10) 0 toks) =
+     Some (Some (TCall (s_ "print") [tree_of (ex_map false); tree_of (ex_map true)]))) /\
+  tree_of (ex_map true) =
+    TIndex (TDot (TMap [(s_ "a", TNum (s_ "1")); (s_ "b", TArr [TNum (s_ "2"); TGroup (TCall (s_ "g") [TNum (s_ "3")])])]) (s_ "b"))
+           (TNum (s_ "0")).
+Proof. vm_compute. repeat split; reflexivity. Qed.
+
+(* the hypotheses of C01_prec_call_stmt_parses are satisfiable:  print (f a[0] -b)*[1 (g 2)][0] {a:1 b:[2 (g 3)]}.b[0]  *)
+Example C01_prec_ex_call_stmt_hyps :
+  let args := [ex_cl false; ex_map false] in
+  func_of env_calls (s_ "print") = Some false /\ arity_wrong env_calls (s_ "print") (List.length args) = false /\
+  (forall a, In a args -> Lay 0 a) /\ args_ok env_calls (atoms_ok env_calls) false args /\
+  forallb (fun a => layout_ok a && tight_ok a) args = true.
+Proof.
+  split; [reflexivity|split; [reflexivity|split; [|split]]].
+  - intros a [<-|[<-|[]]]; [exact (proj1 (C01_prec_ex_call_lay false))|exact (proj1 (C01_prec_ex_map_lay false))].
+  - vm_compute; repeat split; intros; try discriminate; auto.
+  - reflexivity.
+Qed.
